@@ -11,7 +11,7 @@ import (
 // StaticLabeler labels pointers that are identical to an element of one of the
 // top-level collections of s. With byIndex the label carries the index
 // (ordered comparison); otherwise only the collection and the element's id.
-func StaticLabeler(s *gtfs.Static, byIndex bool) func(unsafe.Pointer, reflect.Type) (string, bool) {
+func StaticLabeler(s *gtfs.Static, byIndex bool, servicesByIndex bool) func(unsafe.Pointer, reflect.Type) (string, bool) {
 	m := map[unsafe.Pointer]string{}
 	lab := func(kind string, i int, id string) string {
 		if byIndex {
@@ -29,7 +29,11 @@ func StaticLabeler(s *gtfs.Static, byIndex bool) func(unsafe.Pointer, reflect.Ty
 		m[unsafe.Pointer(&s.Stops[i])] = lab("Stops", i, s.Stops[i].Id)
 	}
 	for i := range s.Services {
-		m[unsafe.Pointer(&s.Services[i])] = lab("Services", i, s.Services[i].Id)
+		if servicesByIndex {
+			m[unsafe.Pointer(&s.Services[i])] = lab("Services", i, s.Services[i].Id)
+		} else {
+			m[unsafe.Pointer(&s.Services[i])] = fmt.Sprintf("&Services{%q}", s.Services[i].Id)
+		}
 	}
 	for i := range s.Trips {
 		m[unsafe.Pointer(&s.Trips[i])] = lab("Trips", i, s.Trips[i].ID)
@@ -49,18 +53,33 @@ func StaticLabeler(s *gtfs.Static, byIndex bool) func(unsafe.Pointer, reflect.Ty
 //	otherwise: Services sorted by content and pointers labelled by id only
 //	(the order of Services is C06's subject and is not re-reported elsewhere).
 func StaticOpts(s *gtfs.Static, ordered bool, withWarnings bool) *Options {
+	return StaticOptsMode(s, ordered, ordered, withWarnings)
+}
+
+// StaticOptsMode is StaticOpts with the Services collection controlled
+// separately: ordered && !servicesOrdered renders every slice in result order
+// except Services, which is sorted by content and referenced by id.
+func StaticOptsMode(s *gtfs.Static, ordered, servicesOrdered bool, withWarnings bool) *Options {
 	o := &Options{
-		Label:            StaticLabeler(s, ordered),
+		Label:            StaticLabeler(s, ordered, servicesOrdered),
 		SkipFields:       map[string]bool{"ScheduledStopTime.Trip": true},
 		UnlabelledPrefix: "COPY",
 	}
 	if !withWarnings {
 		o.SkipFields["Static.Warnings"] = true
 	}
-	if !ordered {
+	if !servicesOrdered {
 		o.SortPaths = map[string]bool{"->.Services": true}
 	}
 	return o
+}
+
+// DumpStaticMode renders a static result (see StaticOptsMode).
+func DumpStaticMode(s *gtfs.Static, ordered, servicesOrdered, withWarnings bool) string {
+	if s == nil {
+		return "<nil static>"
+	}
+	return Dump(s, StaticOptsMode(s, ordered, servicesOrdered, withWarnings))
 }
 
 // DumpStatic renders a static result.
